@@ -644,7 +644,6 @@ package serf
 //@   ensures wf: wfQueries(s)
 //@ end
 
-
 // ---------------------------------------------------------------- gossip re-broadcast decision (C04)
 
 //@ func (d *delegate) NotifyMsg(buf []byte)
